@@ -52,9 +52,10 @@ LEVEL_TEXT = ('Every observed call of the grouping and flow-distribution '
               'methods is checked against an independently recomputed '
               'partition/ordering/flow-total oracle (exact identities, 1e-9 '
               'relative); held on the executions observed, not proved. '
-              'Sub-space enumerated completely: all multisets of <= 7 '
-              'assemblies over 4 power levels x n_groups 1..N+1 x 3 cut-off '
-              'settings (thorough; <= 5 over 3 levels x 2 settings in quick).')
+              'Sub-space enumerated completely: all multisets of <= 8 '
+              'assemblies over 4 power levels (<= 5 over 5 levels) x n_groups '
+              '1..N+1 x 3 cut-off settings (thorough; <= 5 over 3 levels x 2 '
+              'settings in quick).')
 LEVEL_NOTE = ('Trusts numpy, the Material polynomial evaluator (heat capacity '
               'is re-evaluated by the monitor from the coefficients it wrote '
               'into the input) and, in workload A, that the surrogate sweep '
@@ -681,7 +682,8 @@ def multisets(levels, n):
     return out
 
 
-ENUM_LEVELS = {3: [1.0, 0.97, 0.5], 4: [1.0, 0.96, 0.5, 0.48]}
+ENUM_LEVELS = {3: [1.0, 0.97, 0.5], 4: [1.0, 0.96, 0.5, 0.48],
+               5: [1.0, 0.96, 0.5, 0.48, 0.1]}
 ENUM_CUT = [(0.05, 0.001), (0.3, 0.01), (0.01, 0.02)]
 
 
@@ -1208,21 +1210,22 @@ def cases(tier, seed):
                         'len': ln, 'part': 0, 'parts': 1, 'ncut': 2,
                         'seed': [seed, 4, ln]})
     else:
-        for ln in range(1, 8):
-            parts = 1 if ln < 5 else (2 if ln < 7 else 4)
-            for pt in range(parts):
-                out.append({'name': 'enum-4-%d-%d' % (ln, pt), 'kind': 'enum',
-                            'levels': 4, 'len': ln, 'part': pt,
-                            'parts': parts, 'ncut': 3,
-                            'seed': [seed, 4, ln, pt]})
-    for i in range(20 if q else 192):
+        for lv, top in ((4, 8), (5, 5)):
+            for ln in range(1, top + 1):
+                parts = 1 if ln < 5 else (2 if ln < 7 else 4)
+                for pt in range(parts):
+                    out.append({'name': 'enum-%d-%d-%d' % (lv, ln, pt),
+                                'kind': 'enum', 'levels': lv, 'len': ln,
+                                'part': pt, 'parts': parts, 'ncut': 3,
+                                'seed': [seed, 4, lv, ln, pt]})
+    for i in range(20 if q else 640):
         out.append({'name': 'group-%d' % i, 'kind': 'group',
                     'n': 36 if q else 60, 'nmax': 30 if q else 48,
                     'seed': [seed, 1, i]})
-    for i in range(20 if q else 192):
+    for i in range(20 if q else 640):
         out.append({'name': 'hist-%d' % i, 'kind': 'hist',
                     'n': 25 if q else 60, 'seed': [seed, 2, i]})
-    for i in range(8 if q else 72):
+    for i in range(8 if q else 240):
         out.append({'name': 'e2e-%d' % i, 'kind': 'e2e',
                     'seed': [seed, 3, i]})
     # long cases first so the pool drains evenly
